@@ -361,6 +361,10 @@ Two answer formats, chosen by the same rule in the Go engine:
 
 open PCV.IncrFail
 
+/-- `false`: the model mirrors the executor as it is. `true`: the model of the executor with the
+    candidate fix of the C34 findings applied (see the builder's report). -/
+def incrPatched : Bool := false
+
 def panicsNow (env : Env) (k : Key) : Bool := envOf env k % 2 == 0
 
 def nodeScriptF (n : Node) (k : Key) (env : Env) : Script :=
@@ -489,7 +493,7 @@ def bfsFuelF (defs : Defs) : Nat := (defs.length + 2) * (defs.length + 2)
 /-- sequential-class `run` (one root) -/
 def showRunSeq (m : FMState) (root : Key) : FMState × String :=
   let body := bodyOfF m.defs m.env
-  match runF body (fuelF m.defs) (bfsFuelF m.defs) none m.fst [root] with
+  match runF incrPatched body (fuelF m.defs) (bfsFuelF m.defs) none m.fst [root] with
   | .fuel => (m, "model-stuck")
   | .block => ({ m with hung := true }, "hang runs=0")
   | .ok st1 out =>
@@ -533,12 +537,12 @@ def showRunW (m : FMState) (k b : Key) : FMState × String :=
     | .failed _ => obs.dropLast
     | .results _ => obs
   if m.par < 2 then
-    match runF body (fuelF m.defs) (bfsFuelF m.defs) none m.fst [k] with
+    match runF incrPatched body (fuelF m.defs) (bfsFuelF m.defs) none m.fst [k] with
     | .fuel => (m, "model-stuck")
     | .block => ({ m with hung := true }, "hang runs=0")
     | .ok sta outa =>
       let obsa := dropRootObs outa (sta.s.obs.drop m.fst.s.obs.length)
-      match runF body (fuelF m.defs) (bfsFuelF m.defs) none sta [b] with
+      match runF incrPatched body (fuelF m.defs) (bfsFuelF m.defs) none sta [b] with
       | .fuel => (m, "model-stuck")
       | .block => ({ m with hung := true }, "hang runs=1")
       | .ok stb outb =>
@@ -548,7 +552,7 @@ def showRunW (m : FMState) (k b : Key) : FMState × String :=
   let g1 := m.fst.s.counter + 1
   -- Run#1: counter.Add(1), root Resolve creates task k
   let st0 : FSt := { m.fst with s := { m.fst.s with counter := g1, tasks := recordEdges m.fst.s.tasks none [k] } }
-  match runF body (fuelF m.defs) (bfsFuelF m.defs) (some (k, g1)) st0 [b] with
+  match runF incrPatched body (fuelF m.defs) (bfsFuelF m.defs) (some (k, g1)) st0 [b] with
   | .fuel => (m, "model-stuck")
   | .block => ({ m with hung := true }, "hang runs=1")
   | .ok st1 out =>
@@ -558,9 +562,13 @@ def showRunW (m : FMState) (k b : Key) : FMState × String :=
       -- Run#2 parked on k, k completed under Run#1
       fmt st1 (showRes r.val) (showOut out) (newObs ++ [(g1, k, r.runID == g1)])
     | _ =>
+      if (st1.s.log.drop m.fst.s.log.length).contains k then
+        -- (patched executor only) k was executed under Run#1 and panicked; Run#2 then recomputed it
+        fmt st1 s!"E:pan{k}" (showOut out) newObs
+      else
       -- Run#2 never needed k: it completes on its own; afterwards Run#1 (still inside Execute(k))
       -- is let go and finishes alone
-      match startF body (bfsFuelF m.defs) none g1 (fuelF m.defs) { st1 with cancelled := none } none k with
+      match startF incrPatched body (bfsFuelF m.defs) none g1 (fuelF m.defs) { st1 with cancelled := none } none k with
       | .fuel => (m, "model-stuck")
       | .block => ({ m with hung := true }, "hang runs=0")
       | .ok st2 r =>
@@ -617,6 +625,16 @@ def incrFailStep (m : FMState) (line : String) : FMState × String :=
       if a != k || !(m.defs.lookup k).isSome || !(m.defs.lookup b).isSome || !seqDefs m.defs then (m, "bad-op")
       else if m.seqValid then showRunW m k b else (m, "model-mixed-case")
     | _, _, _ => (m, "bad-op")
+  | "runp" :: ks => match ks.mapM String.toNat? with
+    | some (k :: others) =>
+      if !((k :: others).all (fun x => (m.defs.lookup x).isSome)) || others.isEmpty then (m, "bad-op")
+      else if m.par != 1 || !m.seqValid then (m, "model-unsupported")
+      else match runP incrPatched (bodyOfF m.defs m.env) (fuelF m.defs) (bfsFuelF m.defs) m.fst k others with
+        | some (.ok st1 (.failed p)) =>
+          let newLog := st1.s.log.drop m.fst.s.log.length
+          ({ m with fst := st1, absValid := false }, s!"r=E:pan{p} x={showCounts newLog} c=- m=- {showKeys st1.s m.defs}")
+        | _ => (m, "model-unsupported")
+    | _ => (m, "bad-op")
   | ["dump"] => if m.seqValid then (m, showDump m.fst.s m.defs) else (m, "model-mixed-case")
   | ["permits"] => (m, "free")
   | _ => (m, "bad-op")
@@ -748,6 +766,9 @@ def incrFailSpec (s : FSState) (line ans : String) : FSState × String :=
   | ["runw", _, a, b] => match parseInts a, parseInts b with
     | some a, some b => specFailRun s [a, b] ans
     | _, _ => (s, "skip")
+  | "runp" :: ks => match ks.mapM String.toNat? with
+    | some ks => specFailRun s [ks] ans
+    | none => (s, "skip")
   | ["permits"] => if ans == "free" then (s, "holds") else (s, s!"fails semaphore-permits-not-released [{ans}]")
   | _ => (s, "skip")
 
@@ -850,7 +871,7 @@ def incrQueriesStep (m : QMState) (line : String) : QMState × String :=
       let (w, m1) := match m.wss.findIdx? (· == ws) with
         | some w => (w, m)
         | none => (m.wss.length, { m with wss := m.wss ++ [ws], paths := sortDedup (ws ++ m.paths) })
-      match runF (qBodyOf m1) (qFuel m1) (qBfsFuel m1) none m1.fst [qL w] with
+      match runF incrPatched (qBodyOf m1) (qFuel m1) (qBfsFuel m1) none m1.fst [qL w] with
       | .fuel => (m1, "model-stuck")
       | .block => (m1, "model-block")
       | .ok st1 _ =>
